@@ -17,9 +17,9 @@ INFO = {
                   "geom.get_invariant_filters_list", "GeometricFilter.normalize", "GeometricFilter.rectify", "GeometricFilter.bigness",
                   "MultiImage.from_images"],
     "bounds": {
-        "quick": "G in {B_d, rotations, C2^d, C4 (d=2), trivial}; d=2: M 1..5, k 0..3 (k<=2 for M=5; trivial group M<=3,k<=2); d=3: M in {1,2,3}, k 0..2 "
+        "quick": "G in {B_d, rotations, C2^d, C4 (d=2), trivial} + all 10 subgroups of B_2 (M 2,3; k<=2) + a seeded 24 of the 98 subgroups of B_3 (M=2 k=1, M=3 k=0); d=2: M 1..5, k 0..3 (k<=2 for M=5; trivial group M<=3,k<=2); d=3: M in {1,2,3}, k 0..2 "
                  "(k<=1 for the 48-element group at M=3 in quick); p in {0,1}; scale in {normalize, one}",
-        "thorough": "d=2: M 1..5, k 0..4; d=3: M 1..3 k 0..3 (k=3 at M<=2), M=4,5 at k<=1",
+        "thorough": "all 10 subgroups of B_2 (M 2..4, k<=2) and all 98 subgroups of B_3 (M 2,3; k<=2); d=2: M 1..5, k 0..4; d=3: M 1..3 k 0..3 (k=3 at M<=2), M=4,5 at k<=1",
     },
     "outside": ["groups that are not signed-permutation groups", "float32 rounding inside the generation (entries are used as produced)"],
     "assumptions": ["filter entries are taken at the exact rational value of the float32 the code produced"],
@@ -40,6 +40,40 @@ def _groups(D):
         r = np.array([[0, -1], [1, 0]])
         out["C4"] = [np.linalg.matrix_power(r, i) for i in range(4)]
     return out
+
+
+def _closure(gens, D):
+    els = {tuple(np.eye(D, dtype=int).reshape(-1))}
+    frontier = list(els)
+    while frontier:
+        new = []
+        for e in frontier:
+            E = np.array(e).reshape(D, D)
+            for g in gens:
+                t = tuple(int(v) for v in (np.asarray(g) @ E).reshape(-1))
+                if t not in els:
+                    els.add(t)
+                    new.append(t)
+        frontier = new
+    return frozenset(els)
+
+
+def all_subgroups(D):
+    """Every subgroup of the hyperoctahedral group B_D (10 for D=2, 98 for D=3), each as a generator
+    list (gkeys), enumerated by the harness from closures of <=3 elements; sorted deterministically."""
+    from jxsmt import refs
+    ops = [np.asarray(g) for g in refs.all_signed_perms(D)]
+    subs = {}
+    for a in ops:
+        subs.setdefault(_closure([a], D), [a])
+    for a, b in itertools.combinations(ops, 2):
+        subs.setdefault(_closure([a, b], D), [a, b])
+    for s_, gens in list(subs.items()):
+        for c in ops:
+            if tuple(int(v) for v in c.reshape(-1)) not in s_:
+                subs.setdefault(_closure(gens + [c], D), gens + [c])
+    items = sorted(subs.items(), key=lambda kv: (len(kv[0]), sorted(kv[0])))
+    return [(len(els), [gkey(g) for g in gens]) for els, gens in items]
 
 
 def cells(tier, seed):
@@ -74,6 +108,20 @@ def cells(tier, seed):
                 for p in (0, 1):
                     out.append(mk("B", 3, M, k, p))
         out.append(mk("triv", 3, 2, 1, 0))
+    # every subgroup of B_2 (10) and of B_3 (98; quick: a seeded third of them at small M), given by generators
+    import random
+    for order, gens in all_subgroups(2):
+        for M in ((2, 3) if tier == "quick" else (2, 3, 4)):
+            for k in (0, 1, 2):
+                for p in (0, 1):
+                    out.append({"G": "gen", "gens": gens, "order": order, "D": 2, "M": M, "k": k, "p": p, "scale": "normalize"})
+    subs3 = all_subgroups(3)
+    if tier == "quick":
+        subs3 = random.Random(seed).sample(subs3, 24)
+    for order, gens in subs3:
+        for M, k in (((2, 1), (3, 0)) if tier == "quick" else ((2, 0), (2, 1), (2, 2), (3, 0), (3, 1), (3, 2))):
+            for p in (0, 1):
+                out.append({"G": "gen", "gens": gens, "order": order, "D": 3, "M": M, "k": k, "p": p, "scale": "normalize"})
     out.append({"G": "B", "D": 2, "M": 3, "k": -1, "p": 0, "scale": "normalize", "blk": True})
     out.append({"G": "B", "D": 3, "M": 3, "k": -1, "p": 0, "scale": "normalize", "blk": True})
     return out
@@ -90,7 +138,12 @@ def run_cell(cfg, cx):
     from jxsmt.sym import Poly
 
     D, M, k, p, G = cfg["D"], cfg["M"], cfg["k"], cfg["p"], cfg["G"]
-    ops = _groups(D)[G]
+    if G == "gen":
+        from props.common import gmat
+        ops = [np.array(e).reshape(D, D) for e in sorted(_closure([gmat(q, D) for q in cfg["gens"]], D))]
+        G = "gen(" + ",".join(cfg["gens"]) + ")"
+    else:
+        ops = _groups(D)[G]
     if cfg.get("blk"):
         _blocks(cfg, cx, ops)
         return
